@@ -305,6 +305,14 @@ void
 Pointset_Powerset<PSET>
 ::remove_higher_space_dimensions(dimension_type new_dimension) {
   Pointset_Powerset& x = *this;
+  // Dimension-compatibility check.
+  if (new_dimension > x.space_dim) {
+    std::ostringstream s;
+    s << "PPL::Pointset_Powerset<PSET>::remove_higher_space_dimensions(nd):\n"
+      << "this->space_dimension() == " << x.space_dim << ", "
+      << "required space dimension == " << new_dimension << ".";
+    throw std::invalid_argument(s.str());
+  }
   if (new_dimension < x.space_dim) {
     for (Sequence_iterator si = x.sequence.begin(),
            s_end = x.sequence.end(); si != s_end; ++si) {
